@@ -266,6 +266,37 @@ def run(prog, rep):
                 rep.ob("C15.4", fn, "uaf", True, "no path touches a node after releasing it", fn.loc[0])
     rep.floor("C15.4", 5)
 
+    # ---- C15.5 list operations as sequence operations (shape analysis with summarised segments) -----------------
+    rep.rule("C15.5", "list operations (shape analysis to a fixpoint, lists of every length): append / prepend / remove / reverse / last / foreach / free "
+                      "leave or return exactly the sequence the corresponding sequence operation gives (the new item carries the data argument; remove drops and "
+                      "releases the first item whose data equals the argument after comparing every item in front of it; foreach hands every item's data and the "
+                      "user data to the callback in order; free releases every item once), never follow a link of a released item and never dereference NULL")
+    from plint import shape, listshape
+    for spec in ("append", "prepend", "remove", "reverse", "last", "foreach", "free", "length"):
+        fn = lu.fn("p_list_" + spec)
+        seen = {}
+        stats, viol = shape.explore(lu, fn, lambda spec=spec, fn=fn, seen=seen: listshape.ListDomain(spec, seen, len(fn.params)))
+        okl = not viol and stats["returns"] > 0
+        if viol:
+            v = viol[0]
+            msg = "%s (path through lines %s; list shape {%s}; %d of %d paths fail)" % (v[0], ", ".join(str(x) for x in v[3][-8:]), "; ".join(v[2]), len(viol), stats["paths"])
+        else:
+            msg = "%d paths to a fixpoint of %d abstract loop-head states: every return agrees with the sequence operation `%s`" % (stats["paths"], len(seen), spec)
+        rep.ob("C15.5", fn, "seq:" + spec, okl, msg, viol[0][1] if viol else fn.loc[0])
+    # the length counter: starts at 1 on the first item and is incremented once per link followed
+    fl = lu.fn("p_list_length")
+    incs = [(b, i, n) for (b, i, n) in fl.nodes() if n["k"] == "un" and "++" in n["op"]]
+    inits = [(b, i, n) for (b, i, n) in fl.nodes() if n["k"] == "asg" and n["op"] == "=" and cv(n["r"]) is not None and strip_casts(n["l"])["k"] == "ref"
+             and incs and root_var(n["l"]) == root_var(incs[0][2]["e"])]
+    steps = [(b, i, n) for (b, i, n) in fl.nodes() if n["k"] == "asg" and n["op"] == "=" and field_of(n["r"]) == "next"]
+    loops = fl.loops()
+    okc = len(incs) == 1 and len(inits) == 1 and cv(inits[0][2]["r"]) == 1 and len(steps) == 1 and len(loops) == 1 \
+        and incs[0][0].id in loops[0][1] and steps[0][0].id in loops[0][1] and inits[0][0].id not in loops[0][1] \
+        and all(root_var(r.get("e")) == root_var(incs[0][2]["e"]) or cv(r.get("e")) == 0 for (_b, _i, r) in fl.returns())
+    rep.ob("C15.5", fl, "length:counter", okc, "length returns 0 for NULL, else a counter that starts at 1 and is incremented once per link followed to the end" if okc else
+           "the length counter is not `1 + one per link followed`", fl.loc[0])
+    rep.floor("C15.5", 9)
+
 
 def field_of(e):
     e = strip_casts(e)
@@ -278,6 +309,49 @@ def field_of(e):
 RENAME_LOCALS = ['src/phashtable.c', 'src/plist.c']
 
 SELFTEST = [
+    # ---- C15.5 list operations ----
+    dict(id="list-reverse-head-link-kept", file="src/plist.c", expect="C15.5",
+         old="\tprev->next = NULL;\n", new=""),
+    dict(id="list-reverse-returns-cur", file="src/plist.c", expect="C15.5",
+         old="\t\tcur\t  = tmp;\n\t}\n\n\treturn prev;", new="\t\tcur\t  = tmp;\n\t}\n\n\treturn cur;"),
+    dict(id="list-reverse-skips-link", file="src/plist.c", expect="C15.5",
+         old="\t\tcur->next = prev;\n\t\tprev\t  = cur;", new="\t\tprev\t  = cur;"),
+    dict(id="list-append-walks-past-end", file="src/plist.c", expect="C15.5",
+         old="\tfor (cur = list; cur->next != NULL; cur = cur->next)\n\t\t;\n\tcur->next = item;", new="\tfor (cur = list; cur != NULL; cur = cur->next)\n\t\t;\n\tcur->next = item;"),
+    dict(id="list-append-after-head", file="src/plist.c", expect="C15.5",
+         old="\tcur->next = item;", new="\titem->next = list->next;\n\tlist->next = item;"),
+    dict(id="list-append-data-not-stored", file="src/plist.c", expect="C15.5",
+         old="\titem->data = data;\n\n\t/* List is empty */\n\tif (P_UNLIKELY (list == NULL))\n\t\treturn item;\n\n\tfor", new="\t/* List is empty */\n\tif (P_UNLIKELY (list == NULL))\n\t\treturn item;\n\n\tfor"),
+    dict(id="list-prepend-returns-old-head", file="src/plist.c", expect="C15.5",
+         old="\titem->next = list;\n\n\treturn item;", new="\titem->next = list;\n\n\treturn list;"),
+    dict(id="list-remove-keeps-walking", file="src/plist.c", expect="C15.5",
+         old="\t\t\tp_free (cur);\n\n\t\t\tbreak;", new="\t\t\tp_free (cur);"),
+    dict(id="list-remove-head-not-advanced", file="src/plist.c", expect="C15.5",
+         old="\t\t\tif (prev == NULL)\n\t\t\t\thead = cur->next;\n\t\t\telse\n\t\t\t\tprev->next = cur->next;", new="\t\t\tif (prev != NULL)\n\t\t\t\tprev->next = cur->next;"),
+    dict(id="list-remove-unlinks-successor", file="src/plist.c", expect="C15.5",
+         old="\t\t\t\tprev->next = cur->next;", new="\t\t\t\tprev->next = cur->next != NULL ? cur->next->next : NULL;"),
+    dict(id="list-remove-no-free", file="src/plist.c", expect="C15.5",
+         old="\t\t\tp_free (cur);\n\n\t\t\tbreak;", new="\t\t\tbreak;"),
+    dict(id="list-free-reads-freed-item", file="src/plist.c", expect="C15.5",
+         old="\t\tnext = cur->next;\n\t\tp_free (cur);", new="\t\tp_free (cur);\n\t\tnext = cur->next;"),
+    dict(id="list-free-skips-first", file="src/plist.c", expect="C15.5",
+         old="\tfor (next = cur = list; cur != NULL && next != NULL; cur = next)  {", new="\tfor (next = cur = list->next; cur != NULL && next != NULL; cur = next)  {"),
+    dict(id="list-foreach-skips-first", file="src/plist.c", expect="C15.5",
+         old="\tfor (cur = list; cur != NULL; cur = cur->next)\n\t\tfunc (cur->data, user_data);", new="\tfor (cur = list->next; cur != NULL; cur = cur->next)\n\t\tfunc (cur->data, user_data);"),
+    dict(id="list-foreach-stops-before-last", file="src/plist.c", expect="C15.5",
+         old="\tfor (cur = list; cur != NULL; cur = cur->next)\n\t\tfunc (cur->data, user_data);", new="\tfor (cur = list; cur->next != NULL; cur = cur->next)\n\t\tfunc (cur->data, user_data);"),
+    dict(id="list-last-returns-head", file="src/plist.c", expect="C15.5",
+         old="\tfor (cur = list; cur->next != NULL; cur = cur->next)\n\t\t;\n\n\treturn cur;", new="\tfor (cur = list; cur->next != NULL; cur = cur->next)\n\t\t;\n\n\treturn list;"),
+    dict(id="list-length-starts-at-zero", file="src/plist.c", expect="C15.5",
+         old="\tfor (cur = list, ret = 1; cur->next != NULL; cur = cur->next, ++ret)", new="\tfor (cur = list, ret = 0; cur->next != NULL; cur = cur->next, ++ret)"),
+    dict(id="list-reverse-while-form-neutral", file="src/plist.c", expect=None,
+         old="\twhile (cur != NULL) {\n\t\ttmp\t  = cur->next;\n\t\tcur->next = prev;\n\t\tprev\t  = cur;\n\t\tcur\t  = tmp;\n\t}",
+         new="\tfor (; cur != NULL; cur = tmp) {\n\t\ttmp\t  = cur->next;\n\t\tcur->next = prev;\n\t\tprev\t  = cur;\n\t}"),
+    dict(id="list-append-via-last-loop-neutral", file="src/plist.c", expect=None,
+         old="\tfor (cur = list; cur->next != NULL; cur = cur->next)\n\t\t;\n\tcur->next = item;", new="\tcur = list;\n\twhile (cur->next != NULL)\n\t\tcur = cur->next;\n\tcur->next = item;"),
+    dict(id="list-remove-unlink-after-free-neutral", file="src/plist.c", expect=None,
+         old="\t\t\tif (prev == NULL)\n\t\t\t\thead = cur->next;\n\t\t\telse\n\t\t\t\tprev->next = cur->next;\n\n\t\t\tp_free (cur);",
+         new="\t\t\tPList *after = cur->next;\n\n\t\t\tp_free (cur);\n\n\t\t\tif (prev == NULL)\n\t\t\t\thead = after;\n\t\t\telse\n\t\t\t\tprev->next = after;"),
     dict(id="hash-signed-add-again", file="src/phashtable.c", expect="C15.1",
          old="((psize) (pssize) P_POINTER_TO_INT (pointer) + 37)", new="((psize) (P_POINTER_TO_INT (pointer) + 37))"),
     dict(id="bucket-count-mismatch", file="src/phashtable.c", expect="C15.2",
